@@ -206,7 +206,7 @@ class DensityThreshold(DensityBase):
         paths = M.paths(body)
         fr.check(M, "density/all-paths")
         stub.check_calls(M, "density", basis, points, transform)
-        M.true("density/pre@from_orbs", seen.every(lambda cs: len(cs) == 1 and cs[0][0] is dm), "density matrix forwarded (on every path)")
+        M.true("density/pre@from_orbs", seen.every(lambda cs: len(cs) >= 1 and all(c[0] is dm for c in cs)), "density matrix forwarded (on every path)")
         srho, sthr = M.to_spec(rho), M.to_spec(thr) if not M.symbolic else thr
         threshold_rule(M, "density/threshold", paths, lambda p: [srho[n] for n in range(self.npts)], sthr)
 
@@ -504,7 +504,7 @@ class ThresholdAnyN(DensityBase):
             return  # the abstraction has no native counterpart: the N = 1, 2, 3 harnesses are replayed natively instead
         # contract of min: the array it is applied to holds (a positive multiple of) the returned values, and m <= each
         paths = M.paths(body, assumptions=[])
-        M.true("threshold_anyN/pre@min", seen.every(lambda cs: len(cs) == 1), "numpy min asked once (on every path)")
+        M.true("threshold_anyN/pre@min", seen.every(lambda cs: len(cs) >= 1), "numpy min asked (on every path)")
         import numpy as _np
 
         arr = seen[0] if seen else None
